@@ -4,7 +4,7 @@ C11 — parsing is a pure function of the string, whatever happened before.
 Proof: Properties/C11.lean (heap model with region tags: under a copy discipline that shares nothing with the cache, every parse of
 every history returns the pure parse; with lark's Tree.copy() three operations break it).  The copy discipline is observed on the
 live functions (alias analysis against the lru_cache entry) and the theorem is instantiated with it.
-Tie: T3 on histories (parse calls of both parsers interleaved with in-place edits), compared with the model and an uncached parse.
+Tie: T3 on histories (parse calls of both parsers (a third of the strings always passed as keyword argument) interleaved with in-place edits), compared with the model and an uncached parse.
 """
 from __future__ import annotations
 
@@ -59,7 +59,16 @@ class History:
         self.fn = cp.parse_condition_expression_to_tree if parser == "cond" else ap.parse_ahb_expression_to_single_requirement_indicator_expressions
         self.raw = mod._parser  # pylint:disable=protected-access
         self.cached = [self.fn]
+        self.kwname = None
+        for c in (self.fn.__closure__ or []):
+            if hasattr(c.cell_contents, "cache_clear"):
+                import inspect
+                try:
+                    self.kwname = next(iter(inspect.signature(c.cell_contents.__wrapped__).parameters))  # the public name of the string parameter
+                except Exception:  # pylint:disable=broad-except
+                    self.kwname = None
         if parser == "resolve":
+            self.kwname = None
             # the third way to obtain a tree for a string: the combined parser that also expands packages and time conditions
             import asyncio
             from ahbicht.expressions.expression_resolver import parse_expression_including_unresolved_subexpressions as resolve
@@ -166,10 +175,15 @@ class History:
         self.ctx.count("edit_depth", str(len(path)))
         self.ops.append(["edit", root, list(path), e])
 
+    def by_keyword(self, s) -> bool:
+        """a third of the strings are always passed as keyword argument (a fixed function of the string, so that replays repeat it)"""
+        import zlib
+        return self.kwname is not None and zlib.crc32(s.encode("utf-8", "replace")) % 3 == 0
+
     def step_parse(self, s):
         self.ops.append(["parse", s])
         try:
-            t = self.fn(s)
+            t = self.fn(**{self.kwname: s}) if self.by_keyword(s) else self.fn(s)
         except SyntaxError:
             got = None
             t = None
@@ -250,7 +264,7 @@ def replay_ops(h: "History", ops):
 
 def run(ctx: Ctx) -> None:
     ctx.rule = ("histories of 150-400 (thorough: up to 3000) operations per parser: parse calls over 20-60 (thorough: 1500 > cache capacity 1024) distinct strings, "
-                "repeated and fresh (one history with expressions nested 150-330 brackets deep; one through the combined resolver with packages and time conditions), interleaved with in-place edits (replace/remove/append/rebind/rename at random depth, inserting tokens, fresh trees, nodes of "
+                "repeated and fresh (one history with expressions nested 150-330 brackets deep; one through the combined resolver with packages and time conditions), (a third of the strings always passed as keyword argument) interleaved with in-place edits (replace/remove/append/rebind/rename at random depth, inserting tokens, fresh trees, nodes of "
                 "older returned trees); every returned tree compared with an uncached parse; distinct = (parser, history index, operation index)")
     changed = extract.regenerate(["CopyMode"])
     ctx.coverage["generated_changed"] = changed
@@ -309,8 +323,9 @@ def run(ctx: Ctx) -> None:
             at, s, got = h.failure
             ops = h.ops[:at]
             small = shrink(ctx, parser, ops, strings, s)
-            ctx.violation(f"{parser} parser: the tree returned for {s!r} depends on the history (edits of earlier results leak into the cache)",
-                          {"parser": parser, "history": small, "string": s, "returned": got, "pure_parse": h.pure[s], "full_history_length": at},
+            ctx.violation(f"{parser} parser: the tree returned for {s!r} depends on the history (cache hit, miss or eviction, or what callers did with trees returned earlier)",
+                          {"parser": parser, "history": small, "string": s, "returned": got, "pure_parse": h.pure[s], "full_history_length": at,
+                           "passed_as_keyword_argument": sorted({op[1] for op in small if op[0] == "parse" and h.by_keyword(op[1])}), "keyword": h.kwname},
                           key=f"impure:{parser}")
     ctx.sample({"parser": histories[0].parser, "ops": histories[0].ops[:8]})
     if drv and mode in ("deep", "shareChildren"):
